@@ -34,7 +34,7 @@ CFG = Cfg(max_depth=3, theories={"bool", "int", "real", "bv", "arr", "uf", "quan
           quant_types=[BOOL, BV(1), INT], share=35, nsyms=2)
 
 FAIL_KINDS = ["construct", "substitute", "cnf-quantified", "qelim-nonbool", "size-measure", "get-symbol", "hr-parse",
-              "smtlib-parse", "array-nonconst-key", "fi-free-vars", "custom-operator", "simplify-custom-walker"]
+              "smtlib-parse", "array-nonconst-key", "fi-free-vars", "custom-operator", "model-text", "simplify-custom-walker"]
 
 
 def _register_custom_operator():
@@ -142,6 +142,13 @@ def do_fail(world, fail):
                     env.theoryo.get_theory(g_)
                 else:
                     env.ao.get_atoms(g_)
+            elif kind == "model-text":
+                # the other two text entry points of the long-lived parser: get-model and get-value replies
+                _, which, text = fail
+                if which == "parse_model":
+                    world.parser.parse_model(StringIO(text))
+                else:
+                    world.parser.get_assignment_list(StringIO(text))
             elif kind == "fi-free-vars":
                 from pysmt.substituter import FunctionInterpretation
                 _, params, body = fail
@@ -228,6 +235,14 @@ def gen_fail(g, probe, rel):
             "(set-logic QF_LRA) (assert %s) (assert (< 1 true))" % good,
         ])
         return ("smtlib-parse", decl + "\n" + bad + "\n")
+    if kind == "model-text":
+        return g.choice([
+            ("model-text", "parse_model", "((define-fun |pm a| () Int (let ((|zq!| 1)) (+ |zq!| true))))"),
+            ("model-text", "parse_model", "((define-fun |pm f| ((|zq!| Int)) Int (+ |zq!| true)))"),
+            ("model-text", "parse_model", "((define-fun |pm c| () Int 1) (define-fun |pm d| () Int (frob 1)))"),
+            ("model-text", "answer", "(((let ((|zq!| 1)) (+ |zq!| true)) 1))"),
+            ("model-text", "answer", "((i0 1) (i1"),
+        ])
     if kind == "custom-operator":
         bf = f if t == BOOL else (probe if reftype_or_none(probe) == BOOL else const(BOOL, True))
         return ("custom-operator", g.choice(CUSTOM_SERVICES), bf)
@@ -286,6 +301,27 @@ def check_history(run, probe, history, probes, ptexts):
                      dict(case, failing=call),
                      "%s on %s gives %r after failing calls %s, %r on the twin that never saw them" % (
                          call[0], show(call[1], 200), _brief(A.env, a), sorted(set(kinds)), _brief(Bw.env, b)))
+    # get-model / get-value replies read by the long-lived parser (before get_script, which resets the parser)
+    for which, text in (("parse_model", "((define-fun |pm b| () Int |zq!|))"), ("parse_model", "((define-fun |pm c| () Int 7))"),
+                        ("answer", "((|zq!| 1))"), ("parse_model", "((define-fun |pm g| ((a Int)) Int (+ a 1)))")):
+        outs = []
+        for W in (A, Bw):
+            with W.env:
+                try:
+                    r_ = W.parser.parse_model(StringIO(text)) if which == "parse_model" else W.parser.get_assignment_list(StringIO(text))
+                    if which == "parse_model":
+                        r_ = (sorted((str(k), str(v)) for k, v in r_[0].items()),
+                              sorted((str(k), [str(x) for x in fi.formal_params], str(fi.function_body)) for k, fi in r_[1].items()))
+                    else:
+                        r_ = [(str(a), str(b)) for (a, b) in r_]
+                    import re as _re
+                    outs.append("ok " + _re.sub(r"__(\w+?)\d+", r"__\1#", repr(r_))[:300])      # fresh formal names carry a counter
+                except Exception as e:
+                    outs.append("raised " + type(e).__name__)
+        run.cls("probe:long-lived-parser-replies")
+        if outs[0] != outs[1]:
+            run.fail({"subcheck": "trace:result-differs", "service": "long-lived-parser-replies", "after": sorted(set(kinds))[0]}, case,
+                     "%s(%r) gives %s after failing calls %s, %s on the twin" % (which, text, outs[0], sorted(set(kinds)), outs[1]))
     for text in ptexts:
         a, b = parse_probe(A, text), parse_probe(Bw, text)
         ka = outcome_key(A.env, a)
